@@ -2165,6 +2165,9 @@ extern sslKeys_t *matrixServerGetKeysSNI(ssl_t *ssl, char *host, int32 hostLen);
 
 #  ifdef USE_STATELESS_SESSION_TICKETS
 extern int32 matrixSessionTicketLen(void);
+extern void matrixSslLockSessionTicketKeys(void);
+extern void matrixSslUnlockSessionTicketKeys(void);
+extern psBool_t matrixSslHaveSessionTicketKeys(sslKeys_t *keys);
 extern int32 matrixCreateSessionTicket(ssl_t *ssl, unsigned char *out,
                                        int32 *outLen);
 extern int32 matrixUnlockSessionTicket(ssl_t *ssl, unsigned char *in,
